@@ -168,18 +168,21 @@ def run(ctx):
     # the binary: argument orders and repeated runs
     import concurrent.futures as cf
     jobs = []
-    for gi, g in enumerate(groups):
+    # faulty groups first (their diagnostics carry the labels that move), and for each the variant with the most files:
+    # the more files, the more ways a per-process hash order can rearrange them
+    for gi, g in sorted(enumerate(groups), key=lambda x: (x[1]['single'] is None, x[0])):
         multi = [v for v in g['variants'] if len(v) >= 2]
         if not multi: continue
-        files = multi[rng.randrange(len(multi))]
+        most = max(len(v) for v in multi)
+        files = rng.choice([v for v in multi if len(v) == most])
         texts, _ = variant_texts(files)
         names = [f'f{i}.st' for i in range(len(texts))]
         orders = list(itertools.permutations(names))
         if len(orders) > 3: orders = rng.sample(orders, 3)
         for o in orders:
-            for rep in range(5 if o == orders[0] else 1):
+            for rep in range(6 if o == orders[0] else 1):
                 jobs.append((gi, dict(zip(names, texts)), list(o)))
-        if ctx.quick() and len(jobs) > 150: break
+        if ctx.quick() and len(jobs) > 260: break
     def do(job):
         gi, files, order = job
         return cli.check_files(files, order=order)
@@ -189,7 +192,8 @@ def run(ctx):
     for (gi, files, order), r in zip(jobs, res):
         ctx.evaluations += 1
         ctx.count('cli-runs')
-        sig = (r['rc'] == 0, tuple(sorted(set(r['labels']))))
+        # the set of all labels and, separately, which of them is the primary one (first snippet of each diagnostic)
+        sig = (r['rc'] == 0, tuple(sorted(set(r['labels']))), tuple(sorted(set(r['diags']))))
         show = {'group': groups[gi]['name'], 'order': order, 'texts': list(files.values())}
         if gi not in cref:
             cref[gi] = (sig, order)
